@@ -364,6 +364,114 @@ Proof.
   intros. now apply (kinetic_prim_rotation_matrix K Kf Hexp).
 Qed.
 
+(* ------------------------------------------------------------------ *)
+(* 4. evaluate_basis_model                                              *)
+(* ------------------------------------------------------------------ *)
+Lemma descr_len_bdim (b : list (shell F)) : (forall s, In s b -> s_sph s = false) ->
+  forall t, (t < length b)%nat -> length (descr K (nth t b (SameFunP.dshell K))) = bdim (sh_at K b t).
+Proof.
+  intros Hs t Ht. rewrite descr_length, nrows_eq.
+  change (nth t b (SameFunP.dshell K)) with (sh_at K b t).
+  rewrite (Hs (sh_at K b t)) by (now apply nth_In). reflexivity.
+Qed.
+
+Lemma descr_basis_length (b : list (shell F)) : (forall s, In s b -> s_sph s = false) ->
+  length (descr_basis K b) = btotal K b.
+Proof.
+  intros Hs. rewrite descr_basis_mk. unfold btotal, boff.
+  apply (length_concat_mk (length b) (fun i => descr K (nth i b (SameFunP.dshell K)))
+           (fun t => bdim (sh_at K b t))). now apply descr_len_bdim.
+Qed.
+
+(* the descriptor at the position gidx(k, m, c) of a Cartesian basis *)
+Lemma descr_basis_gidx (b : list (shell F)) k m c : (forall s, In s b -> s_sph s = false) ->
+  (k < length b)%nat -> (m < nseg (sh_at K b k))%nat -> (c < AssembledP.ncomp (sh_at K b k))%nat ->
+  nth (gidx K b k m c) (descr_basis K b) ([] : fdesc (F:=F)) = cart_desc K (sh_at K b k) m c.
+Proof.
+  intros Hs Hk Hm Hc. rewrite descr_basis_mk. unfold gidx, boff.
+  rewrite (nth_concat_mk (length b) (fun i => descr K (nth i b (SameFunP.dshell K)))
+             (fun t => bdim (sh_at K b t)) ([] : fdesc (F:=F)) k _ (descr_len_bdim b Hs) Hk)
+    by (unfold bdim; now apply idx_lt).
+  change (nth k b (SameFunP.dshell K)) with (sh_at K b k).
+  set (s := sh_at K b k) in *.
+  assert (Hsph : s_sph s = false) by (apply Hs; now apply nth_In).
+  assert (Hnr : nrows K s = AssembledP.ncomp s) by (rewrite nrows_eq, Hsph; reflexivity).
+  rewrite descr_mk, Hnr.
+  rewrite (nth_concat_const (mk (nseg s) (fun m0 => mk (AssembledP.ncomp s) (dd K s m0)))
+             (AssembledP.ncomp s) ([] : fdesc (F:=F)) m c).
+  - rewrite nth_mk by exact Hm. rewrite nth_mk by exact Hc. unfold dd. now rewrite Hsph.
+  - apply Forall_forall. intros r Hr. unfold mk in Hr. apply in_map_iff in Hr. destruct Hr as (m0 & <- & _).
+    apply mk_length.
+  - now rewrite mk_length.
+  - exact Hc.
+Qed.
+
+(* every entry of evaluate_basis_model of a Cartesian basis: contraction norm x un-normalised descriptor *)
+Lemma eval_entry_gidx (b : list (shell F)) (pts : list (point (F:=F))) k m c p :
+  (forall s, In s b -> s_sph s = false /\ s_comps s = []) ->
+  (k < length b)%nat -> (m < nseg (sh_at K b k))%nat -> (c < AssembledP.ncomp (sh_at K b k))%nat ->
+  (p < length pts)%nat ->
+  nth p (nth (gidx K b k m c) (evaluate_basis_model K b pts None) []) 0
+  = ncont K (sh_at K b k) m c * eval_spec K (cart_desc_raw K (sh_at K b k) m c) (nth p pts (0, 0, 0)).
+Proof.
+  intros Hb Hk Hm Hc Hp.
+  assert (Hs : forall s, In s b -> s_sph s = false) by (intros s Hs; now destruct (Hb s Hs)).
+  rewrite (same_function_eval_values K Kf)
+    by (apply Forall_forall; intros s Hs'; apply default_comps_ok; now destruct (Hb s Hs')).
+  set (f := fun d : fdesc (F:=F) => map (eval_spec K d) pts).
+  rewrite (nth_indep _ [] (f [])) by (rewrite map_length, (descr_basis_length b Hs); now apply gidx_lt).
+  rewrite (map_nth f), (descr_basis_gidx b k m c Hs Hk Hm Hc). unfold f.
+  rewrite (nth_indep _ 0 (eval_spec K (cart_desc K (sh_at K b k) m c) (0, 0, 0)))
+    by (now rewrite map_length).
+  rewrite (map_nth (eval_spec K (cart_desc K (sh_at K b k) m c))).
+  unfold eval_spec. rewrite (cart_desc_is_scaled_raw K Kf). reflexivity.
+Qed.
+
+Theorem evaluate_basis_rotation_law (pts : list (point (F:=F))) : ncont_nonzero ->
+  forall i m a p, (i < length bs)%nat -> (m < nseg (s_ i))%nat -> (a < ncd (s_l (s_ i)))%nat ->
+  (p < length pts)%nat ->
+  fsum (mk (ncd (s_l (s_ i))) (fun a' =>
+    wrot R (s_ i) m a a'
+    * nth p (nth (gidx K bs i m a') (evaluate_basis_model K bs' (map (mapply K R) pts) None) []) 0))
+  = nth p (nth (gidx K bs i m a) (evaluate_basis_model K bs pts None) []) 0.
+Proof.
+  intros Hn i m a p Hi Hm Ha Hp.
+  assert (Hb : forall s, In s bs -> s_sph s = false /\ s_comps s = []).
+  { intros s Hs. destruct OK as [A _]. destruct (A s Hs) as (H1 & _ & H3 & _). now split. }
+  assert (Hb' : forall s, In s bs' -> s_sph s = false /\ s_comps s = []).
+  { intros s' Hs'. destruct (rot_in s' Hs') as (s & Hs & ->). exact (Hb s Hs). }
+  assert (Hi' : (i < length bs')%nat) by (unfold rot_basis; now rewrite map_length).
+  assert (Hc0 : s_comps (s_ i) = []) by (apply Hb; now apply sh_in').
+  set (l := s_l (s_ i)).
+  rewrite (eval_entry_gidx bs pts i m a p Hb Hi Hm) by (try (rewrite ncomp_default by exact Hi); assumption).
+  pose proof (eval_spec_rotation_law K Kf Hapx Hdf R HO (s_ i) Hc0 m a (nth p pts (0, 0, 0)) Ha) as L.
+  cbv zeta in L. fold l in L. unfold wrot, cmpl. fold l.
+  set (cm := fun i0 : nat => nth i0 (default_comps l) (0, 0, 0)%nat) in *.
+  change (nth a (default_comps l) (0, 0, 0)%nat) with (cm a) in *.
+  transitivity ((ncont K (s_ i) m a / dfnorm K (cm a))
+                * (dfnorm K (cm a) * eval_spec K (cart_desc_raw K (s_ i) m a) (nth p pts (0, 0, 0))));
+    [|field; apply Hdf].
+  rewrite L.
+  change (seq 0 (length (default_comps l))) with (seq 0 (ncd l)).
+  match goal with |- context [map ?g (seq 0 (ncd l))] => change (map g (seq 0 (ncd l))) with (mk (ncd l) g) end.
+  rewrite (fsum_mk_scale_l K Kf). apply fsum_mk_ext. intros a' Ha'.
+  rewrite <- (gidx_rot i m a' Hi).
+  rewrite (eval_entry_gidx bs' (map (mapply K R) pts) i m a' p Hb' Hi')
+    by (rewrite ?(sh_at_rot i Hi), ?map_length; try assumption;
+        change (AssembledP.ncomp (rs_ i)) with (AssembledP.ncomp (s_ i)); rewrite ncomp_default by exact Hi;
+        exact Ha').
+  rewrite (sh_at_rot i Hi), (ncont_rotation_invariant R (s_ i) m a' (self_exps i Hi)).
+  rewrite (nth_indep _ (0, 0, 0) (mapply K R (0, 0, 0))) by (now rewrite map_length).
+  rewrite (map_nth (mapply K R)).
+  change (nth a' (default_comps l) (0, 0, 0)%nat) with (cm a').
+  change (@nth (@vec3 F) p pts (0, 0, 0)) with (@nth (@point F) p pts (0, 0, 0)).
+  pose proof (Hn i m a' Hi Hm Ha') as N1. pose proof (Hdf (cm a)) as D1. revert N1 D1.
+  generalize (ncont K (s_ i) m a') (dfnorm K (cm a)) (dfnorm K (cm a')) (ncont K (s_ i) m a)
+    (rep_mat K R (cm a') (cm a))
+    (eval_spec K (cart_desc_raw K (rs_ i) m a') (mapply K R (nth p pts (0, 0, 0)))).
+  intros x1 x2 x3 x4 x5 x6 N1 D1. field. split; assumption.
+Qed.
+
 End Basis.
 
 End RotAsm.
